@@ -14,8 +14,8 @@ def run(ctx):
     paths = universes(ctx, ["c1d2", "k3d2", "k2d3"] if ctx.quick else ["c1d2", "k3d2", "k2d3", "k4d2", "k3d3"])
     ev = ctx.work / "events.ndjson"
     ctx.dsv("C05", "drive", "--out", ev, "--universe", ",".join(paths), "--maxgen", 4 if ctx.quick else 6,
-            *(["--deep", 12, "--deep-per", 80, "--deep-covers", 900] if ctx.quick else
-              ["--deep", 120, "--deep-per", 100000, "--deep-list", 3000, "--deep-covers", 40000]), timeout=14400)
+            *(["--deep", 12, "--deep-per", 80, "--deep-covers", 900, "--counts", 400, "--counts-k", 6] if ctx.quick else
+              ["--deep", 120, "--deep-per", 100000, "--deep-list", 3000, "--deep-covers", 40000, "--counts", 2400, "--counts-k", 7]), timeout=14400)
     for ln in open(ev):
         e = json.loads(ln)
         n = e["in"]["n"]
